@@ -36,6 +36,7 @@ import VotelibProofs.Lemmas.ShapeApprovalPAV
 import VotelibProofs.Lemmas.ShapeQuotaSubtract
 import VotelibProofs.Lemmas.ShapeSequential
 import VotelibProofs.Lemmas.ShapeAux
+import VotelibProofs.Lemmas.ShapeTieBreak
 namespace VL.C08
 open VL
 
